@@ -62,7 +62,13 @@ pub enum AppRes { Installed, Deferred, Failed(u32) }
 pub enum Step { Fire(usize), Ctl(usize, bool),
     /// from ONE handle instance: a request whose future is dropped after its first poll (id1 ≥ 900000: nobody waits for the
     /// reply), then at once a second request (id2) that is awaited — it arrives while the first is being served
-    CtlPair(usize, bool, usize, bool) }
+    CtlPair(usize, bool, usize, bool),
+    /// last step of an outer wait whose timers all fire together: a request that arrives before the machine runs again, so
+    /// that the wait's `select!` finds both of its branches ready (either may win; the harness reads off which one did)
+    Race(usize, bool),
+    /// reboot wait: timer `i` fires and a scheduled-source request `id` arrives before the machine runs again (two branches of
+    /// the wait's `select!` ready at once; whichever is taken first, both are served and the trace is the same)
+    FireCtl(usize, usize) }
 
 #[derive(Clone, Debug, Default)]
 pub struct UnitEnv {
